@@ -30,6 +30,25 @@ CLAIMS = {
         "technique": "Lean 4 proof over translated conversion/ETDRK definitions + model/implementation correspondence",
         "design_ref": "DESIGN.md §5 C13",
     },
+    "C14": {
+        "text": "Lean theorems by induction, for any state/aux type and every n>=0, about Loops.* (hand-written mirror of "
+                "exponax/_utils.py: lax.scan as a fold): entry i of rollout is the (i+1)-fold application (shifted with the "
+                "initial state prepended), repeat = last entry = f^n, step counts add, aux inputs are consumed in order / held "
+                "constant, windows = every contiguous slice in order with rejection iff too long, RepeatedStepper = n inner "
+                "steps with dt*n. Correspondence: exact integer bookkeeping steppers for every (n, flags), pytree leaves, "
+                "every (T, window) pair; RepeatedStepper numerically vs n model steps.",
+        "technique": "Lean 4 proof (induction over fold model) + exact model/implementation correspondence",
+        "design_ref": "DESIGN.md §5 C14",
+    },
+    "C20": {
+        "text": "Lean theorems about the decision logic (Layout.acceptsShape, Guards.*): accepted iff shape = (C, N,..,N) with D "
+                "spatial axes, hence wrong channel count / extra batch axis / missing axis / any unequal axis rejected and "
+                "accepted shapes returned unchanged; dimension, order-parity, generator-option and metric-mode guards equal the "
+                "documented tables. Correspondence: accept/reject/exception class of every exported stepper class (enumerated "
+                "from the package exports), RepeatedStepper, Poisson, operators, generators, metrics, nonlinear funs vs the model, exact.",
+        "technique": "Lean 4 proof of decision logic + exhaustive exact accept/reject correspondence over package exports",
+        "design_ref": "DESIGN.md §5 C20",
+    },
 }
 
 PENDING_REASON = "check not built yet in this session (model and theorems planned in DESIGN.md §5); not claimed until its check exists"
